@@ -4,15 +4,17 @@
          11 0 n qbits nitems { cbits  Nobs Qobsbits confbits lo hi amb }*
    op 1  n > 30, one call; oracle values recomputed by the harness from stats.NormalDist:
          11 1 n qbits cbits  mubits sigmabits l1bits r1bits l0 r0 band_lr band_lr1 cdf_l1 cdf_hi cdf_lo cdf_hi1
-              Nobs Qobsbits confbits lo hi amb
+              K { band_k cdf_hi_k cdf_lo_k }*K   Nobs Qobsbits confbits lo hi amb
          (mu = norm.Mu, sigma = norm.Sigma, l1 = norm.InvCDF(alpha), alpha = (1-c)/2 capped at 1/2, r1 = 2*mu-l1 in floats,
-          l0/r0 the rounded band, la = r0-1 if r0 <= l0 else l0 (the left end used),
-          band_lr = CDF(r0-.5)-CDF(la-.5), band_lr1 = CDF(r0-1.5)-CDF(la-.5), cdf_l1 = CDF(l1),
-          cdf_hi = CDF(r0-.5), cdf_lo = CDF(la-.5), cdf_hi1 = CDF(r0-1.5))
+          l0/r0 the rounded band, la = r0-1 if r0 <= l0 else l0 (its left end);  K = the number of times the band was
+          widened (quantileci.go: for cdf(l, r) < confidence && (l > 0 || r < n+1) { l--; r++ }), the K triples are the
+          masses and CDF values of the bands (la-k, r0+k), k < K, that were too light; lw = la-K, rw = r0+K the band taken:
+          band_lr = CDF(rw-.5)-CDF(lw-.5), band_lr1 = CDF(rw-1.5)-CDF(lw-.5), cdf_l1 = CDF(l1),
+          cdf_hi = CDF(rw-.5), cdf_lo = CDF(lw-.5), cdf_hi1 = CDF(rw-1.5))
    op 2  SampleCI:  11 2 N lo hi qbits weighted sortedflag status xs_before xs_after qret loret hiret qref
          (status 0 returned, 2 panicked; qref = Quantile(q) of a sorted copy, computed by the harness) *)
 From MM Require Import Base.Num Base.GFSum Model.Choose Model.Binom Model.QuantileCI Check.C06.
-From Coq Require Import Qround.
+From Coq Require Import Qround Sorting.Mergesort Orders.
 Local Open Scope Z_scope.
 
 (* Confidence "equals the exact Binomial(n,q) probability of the buckets": same absolute tolerance
@@ -52,6 +54,14 @@ Definition match_small (sh : Z) (o : qobs) (r : qres) : bool :=
   (r_lo r =? o_lo o) && (r_hi r =? o_hi o) && Bool.eqb (r_amb r) (o_amb o) &&
   match o_conf o with
   | XFin cf => dwithin tol_conf (Qnum (r_conf r)) 1 sh cf
+  | _ => false
+  end.
+
+(* an integer mass w (unit 1/2^sh) below 2^-999: the float PMF of such a bucket may have underflowed to 0 *)
+Definition negligible (sh : Z) (w : Q) : bool := Qle_bool w 0 || (Z.log2 (Qnum w) + 1000 <=? sh).
+Definition conf_ge_c (P : Z -> Q) (sh : Z) (c : Q) (o : qobs) : bool :=
+  match o_conf o with
+  | XFin cf => if Qle_bool c cf then true else negligible sh (P (o_lo o - 1)) && negligible sh (P (o_hi o))
   | _ => false
   end.
 
@@ -98,7 +108,11 @@ Definition check_small_item (P : Z -> Q) (n : Z) (x : Z) (qbits : Z) (g : list (
                (Z.lor (if (o_lo o =? 0) && (o_hi o =? n + 1) then 16 else 0)
                       (if (1 <? Z.of_nat (length outs)) then 32 else 0))))) in
     if existsb (match_small (e * n) o) outs
-    then ((if (1 <? Z.of_nat (length outs)) then V_BORDERLINE else V_OK), tag, [])
+    then (* "Confidence is at least c", on the observed floats themselves: the loop leaves only when
+            accum >= confidence — or when neither neighbour bucket has any mass left (float PMF zero: the exact
+            mass is zero or far below the underflow threshold), and it reports accum *)
+         if conf_ge_c P (e * n) c o then ((if (1 <? Z.of_nat (length outs)) then V_BORDERLINE else V_OK), tag, [])
+         else (V_MISMATCH, tag, [12])
     else (V_MISMATCH, tag,
           match outs with
           | r :: _ => [2; r_lo r; r_hi r; (if r_amb r then 1 else 0); Qnum (r_conf r); e * n; Z.of_nat (length outs)]
@@ -116,7 +130,52 @@ Fixpoint run_small (P : Z -> Q) (n : Z) (x : Z) (qbits : Z) (g : list (list (st 
       else verdict code (Z.lor tag t) idx dg
   end.
 
+(* ---- op 0: "intervals are nested as c grows", checked on the observations of a line themselves: the items
+   are sorted by level; consecutive items must be nested, and equal levels must give equal intervals ---- *)
+Module ItemOrder <: TotalLeBool.
+  Definition t := (Q * qobs)%type.
+  Definition leb (a b : t) : bool := Qle_bool (fst a) (fst b).
+  Theorem leb_total : forall a1 a2, leb a1 a2 = true \/ leb a2 a1 = true.
+  Proof. intros a b. apply QOrder.leb_total. Qed.
+End ItemOrder.
+Module ItemSort := Sort ItemOrder.
+Fixpoint nested_chain (l : list (Q * qobs)) : bool :=
+  match l with
+  | a :: ((b :: _) as t) =>
+      (o_lo (snd b) <=? o_lo (snd a)) && (o_hi (snd a) <=? o_hi (snd b)) &&
+      (negb (Qle_bool (fst b) (fst a)) || ((o_lo (snd a) =? o_lo (snd b)) && (o_hi (snd a) =? o_hi (snd b)))) &&
+      nested_chain t
+  | _ => true
+  end.
+Definition nested_ok (items : list (Q * qobs)) : bool := nested_chain (ItemSort.sort items).
+
 Definition ulps (k : Z) (scale : Q) : Q := (inject_Z k * ulp53 * Qabs scale)%Q.
+
+(* ---- op 1: the bands the widening loop went through (mass, CDF at the upper end, CDF at the lower end) ---- *)
+Fixpoint fin_steps (ws : list (xreal * xreal * xreal)) : option (list (Q * Q * Q)) :=
+  match ws with
+  | [] => Some []
+  | (XFin b, XFin h, XFin l) :: t => match fin_steps t with Some r => Some ((b, h, l) :: r) | None => None end
+  | _ :: _ => None
+  end.
+(* every band (la-k, r0+k) of the list: its mass is the difference of its CDF values, the loop guard was true
+   there (mass < c and the band does not cover [0, n+1]), and the CDF values are ordered towards the next
+   band (the last one towards the band taken, chF / clF) *)
+Fixpoint chain_ok (n : Z) (c : Q) (la r0 k : Z) (steps : list (Q * Q * Q)) (chF clF : Q) : bool :=
+  match steps with
+  | [] => true
+  | (b, h, l) :: t =>
+      within (ulps 2 1) (h - l)%Q b && Qltb b c && ((0 <? la - k) || (r0 + k <? n + 1))
+      && (match t with [] => Qle_bool h chF && Qle_bool clF l | (_, h', l') :: _ => Qle_bool h h' && Qle_bool l' l end)
+      && chain_ok n c la r0 (k + 1) t chF clF
+  end.
+Fixpoint step_lookup (steps : list (Q * Q * Q)) (la r0 k a b : Z) : option Q :=
+  match steps with
+  | [] => None
+  | (w, _, _) :: t => if (a =? la - k) && (b =? r0 + k) then Some w else step_lookup t la r0 (k + 1) a b
+  end.
+Definition qres_eqb (x y : qres) : bool :=
+  (r_lo x =? r_lo y) && (r_hi x =? r_hi y) && Qeq_bool (r_conf x) (r_conf y) && Bool.eqb (r_amb x) (r_amb y).
 
 Definition check_C11 (line : list Z) : list Z :=
   match line with
@@ -132,7 +191,8 @@ Definition check_C11 (line : list Z) : list Z :=
               let ws := binom_weights n (Qnum q) (d - Qnum q) in
               let exact := exact_regime n q in
               match qci_graph (scaled_pmf n ws) (if exact then 0%Q else ieps_border) n (mode_candidates n q exact) with
-              | Some g => run_small (scaled_pmf n ws) n (mode_x n q) qb g e exact items 0 0 false
+              | Some g => if negb (nested_ok items) then verdict V_MISMATCH 1 (-1) [10]
+                          else run_small (scaled_pmf n ws) n (mode_x n q) qb g e exact items 0 0 false
               | None => verdict V_MALFORMED 0 (-1) [7]
               end
           | _ => verdict V_MALFORMED 0 (-1) []
@@ -141,9 +201,10 @@ Definition check_C11 (line : list Z) : list Z :=
       end
   | 11 :: 1 :: rest =>
       match (do n <- pZ; do qb <- pZ; do c <- pQ; do mu <- pX; do sg <- pX; do l1 <- pX; do r1 <- pX; do l0 <- pZ; do r0 <- pZ;
-             do b1 <- pX; do b2 <- pX; do pl1 <- pX; do ch <- pX; do cl <- pX; do ch1 <- pX; do o <- p_qobs;
-             pend (n, qb, c, (mu, sg, l1, r1), (l0, r0), (b1, b2, pl1), (ch, cl, ch1), o)) rest with
-      | Some ((n, qb, c, (mu, sg, l1, r1), (l0, r0), (b1, b2, pl1), (ch, cl, ch1), o), _) =>
+             do b1 <- pX; do b2 <- pX; do pl1 <- pX; do ch <- pX; do cl <- pX; do ch1 <- pX;
+             do ws <- plist (do b <- pX; do h <- pX; do l <- pX; pret (b, h, l)); do o <- p_qobs;
+             pend (n, qb, c, (mu, sg, l1, r1), (l0, r0), (b1, b2, pl1), (ch, cl, ch1), ws, o)) rest with
+      | Some ((n, qb, c, (mu, sg, l1, r1), (l0, r0), (b1, b2, pl1), (ch, cl, ch1), ws, o), _) =>
           match decode_bits qb with
           | XFin q =>
               if (n <=? qci_threshold) || Qltb q 0 || Qltb 1 q then verdict V_MALFORMED 0 (-1) [] else
@@ -151,8 +212,8 @@ Definition check_C11 (line : list Z) : list Z :=
               (* the property's order claim on the observation itself, for every c *)
               if negb (orders_ok n o) then verdict V_MISMATCH (Z.lor 128 (if Qle_bool c 0 then 16384 else 0)) 9 [o_lo o; o_hi o] else
               if Qle_bool 1 c then (if is_full n o then verdict V_OK 130 (-1) [] else verdict V_MISMATCH 130 1 []) else
-              match mu, sg, l1, r1, b1, b2, ch, cl, ch1 with
-              | XFin mu, XFin sg, XFin l1, XFin r1, XFin b1, XFin b2, XFin ch, XFin cl, XFin ch1 =>
+              match mu, sg, l1, r1, b1, b2, ch, cl, ch1, fin_steps ws with
+              | XFin mu, XFin sg, XFin l1, XFin r1, XFin b1, XFin b2, XFin ch, XFin cl, XFin ch1, Some steps =>
                   let nq := (inject_Z n * q)%Q in
                   (* the approximating normal is Normal(n q, n q (1-q)): sigma^2 within 8 ulps of the variance *)
                   let var := (nq * (1 - q))%Q in
@@ -166,8 +227,15 @@ Definition check_C11 (line : list Z) : list Z :=
                   let l := Qfloor (l1 - (1 # 2))%Q + 1 in
                   let r := Qceiling (r1 - (1 # 2))%Q + 1 in
                   if negb ((l =? l0) && (r =? r0)) then verdict V_MISMATCH 128 5 [l; r; l0; r0] else
-                  (* the left end the band logic uses: an empty rounded band keeps the bucket below r *)
+                  (* the left end of the rounded band: an empty rounded band keeps the bucket below r *)
                   let la := if r <=? l then r - 1 else l in
+                  (* the widening loop: K bands that were too light, then the band taken (lw, rw), at which the
+                     loop guard is false *)
+                  let K := Z.of_nat (length steps) in
+                  let lw := la - K in
+                  let rw := r0 + K in
+                  if negb (chain_ok n c la r0 0 steps ch cl) then verdict V_MISMATCH 128 10 [K] else
+                  if Qltb b1 c && ((0 <? lw) || (rw <? n + 1)) then verdict V_MISMATCH 128 10 [K; lw; rw] else
                   (* l1 really is the alpha-quantile of the approximating normal (accuracy of InvCDF/CDF
                      themselves belongs to C05): |CDF(l1) - (1-c)/2| <= 1e-9 *)
                   let alpha_ok := match pl1 with
@@ -175,20 +243,31 @@ Definition check_C11 (line : list Z) : list Z :=
                                   | _ => Qeq_bool q 0 || Qeq_bool q 1
                                   end in
                   if negb alpha_ok then verdict V_MISMATCH 128 6 [] else
-                  let band := fun a b : Z => if (a =? la) && (b =? r0) then b1
-                                             else if (a =? la) && (b =? r0 - 1) then b2 else (-1)%Q in
-                  let ex := qci_normal band n c l1 r1 in
+                  (* the band logic on the observed masses, in closed form ... *)
+                  let biased := (lw <? rw - 1) && Qle_bool c b2 && Qltb b2 b1 in
+                  let r' := if biased then rw - 1 else rw in
+                  let full := (lw <=? 0) && (n + 1 <=? r') in
+                  let ex := mkR (Z.max lw 0) (Z.min r' (n + 1)) (if full then 1%Q else if biased then b2 else b1)
+                                (biased && negb full) in
+                  (* ... which must be what the model function [qci_normal] (the one the theorems are about)
+                     computes from the same band masses *)
+                  let band := fun a b : Z => match step_lookup steps la r0 0 a b with
+                                             | Some w => w
+                                             | None => if (a =? lw) && (b =? rw) then b1
+                                                       else if (a =? lw) && (b =? rw - 1) then b2 else (-1)%Q
+                                             end in
+                  if negb (qres_eqb (qci_normal band n c l1 r1) ex) then verdict V_MALFORMED 128 11 [K] else
                   let tag := Z.lor 128 (Z.lor (if r_amb ex then 256 else 0)
-                             (Z.lor (if (la <=? 0) && (n + 1 <=? r_hi ex) then 512 else 0)
-                             (Z.lor (if (la <? 0) || (n + 1 <? r) then 16 else 0)
+                             (Z.lor (if (lw <=? 0) && (n + 1 <=? r_hi ex) then 512 else 0)
+                             (Z.lor (if (lw <? 0) || (n + 1 <? rw) then 16 else 0)
                              (Z.lor (if Qle_bool c b2 then 1024 else 0)
-                                    (if Qle_bool c 0 then 16384 else 0))))) in
+                             (Z.lor (if 0 <? K then 32768 else 0)
+                                    (if Qle_bool c 0 then 16384 else 0)))))) in
                   if (r_lo ex =? o_lo o) && (r_hi ex =? o_hi o) && Bool.eqb (r_amb ex) (o_amb o)
                      && xeq (XFin (r_conf ex)) (o_conf o) && Qle_bool c (r_conf ex)
-                  then (if orders_ok n o then verdict V_OK tag (-1) []
-                        else verdict V_MISMATCH tag 9 [o_lo o; o_hi o])
+                  then verdict V_OK tag (-1) []
                   else verdict V_MISMATCH tag 7 ([r_lo ex; r_hi ex; (if r_amb ex then 1 else 0)] ++ qdiag (r_conf ex))
-              | _, _, _, _, _, _, _, _, _ => verdict V_MISMATCH 128 8 []
+              | _, _, _, _, _, _, _, _, _, _ => verdict V_MISMATCH 128 8 []
               end
           | _ => verdict V_MALFORMED 0 (-1) []
           end
